@@ -54,6 +54,7 @@ type DeclCfg struct {
 	DupFields    bool // a nested group may reuse a field name of its parent group
 	DupTags      bool // single-valued tags are sometimes given twice (the last one counts)
 	ManyAliases  bool // commands with several aliases sharing a prefix
+	BaseMulti    bool // base: tags also on slices and maps of integers
 }
 
 var (
@@ -177,7 +178,7 @@ func (g *declGen) opt() *OptSpec {
 	if cfg.IniName && r.Chance(1, 6) {
 		o.IniName = "ini_" + w + strconv.Itoa(n)
 	}
-	if cfg.Base && !multi && !fn && strings.Contains(baseKind(kind), "int") && r.Chance(1, 4) {
+	if cfg.Base && (!multi || cfg.BaseMulti) && !fn && (strings.Contains(baseKind(kind), "int") || (cfg.BaseMulti && isMapKind(kind) && strings.Contains(mapKeyKind(kind), "int"))) && r.Chance(1, 4) {
 		o.Base = []int{2, 8, 16, 36}[r.Intn(4)]
 		o.Default = nil
 		o.OptionalValue = nil
